@@ -61,8 +61,12 @@ Definition check_case (c : case) : N :=
   | CTunnel k pp is4 caddr saddr cport sport stream segs fin cw_in cwait ce ut reply rseg1 whead ue conn o_up o_cl o_ended o_eof =>
       let line := proxy_line is4 caddr saddr cport sport in
       let ss := split_segs stream segs in
-      let spec := spec_b k pp line stream fin cw_in cwait ce ut reply ue o_up o_cl o_ended o_eof in
-      let region : option N := None in
+      let spec := spec_b k pp line stream cwait ce ut reply ue o_up o_cl in
+      (* F-C09-7 (open): syntactic on the scenario - upstream half-closes with client bytes still to
+         come, accepted connection without CloseWrite *)
+      let region :=
+        if region_upstream_half_close (spec_upstream k pp line stream)
+             (match k with KWs => cw_in | _ => wrapper_cw cw_in end) ut ue then Some 1 else None in
       let agrees e := Bool.eqb conn (e_conn e)
                       && within o_up (e_up e) (e_up_lo e) (nlen' (e_up e))
                       && within o_cl (e_cl e) (e_cl_lo e) (e_cl_hi e)
